@@ -91,6 +91,8 @@ type Engine struct {
 	Uninterp     map[*ssa.Function]bool // spec functions marked //gvc:uninterpreted
 	Opaque       map[*ssa.Function]bool // spec functions marked //gvc:opaque (definition revealed on request)
 	skMemo       map[*smt.Term]*smt.Term
+	hqMemo       map[*smt.Term]bool
+	defImpl      map[*smt.Term]bool
 	NoEffect     map[string]string // interface method names assumed to have no effect (stdlib.gvc: noeffect)
 	DefEqs       map[*smt.Term][2]*smt.Term // definitional equalities of revealed opaque applications
 	GhostAcc     map[*ssa.Function]bool // //gvc:ghost accessors
@@ -121,7 +123,7 @@ func NewEngine(cfg Config) *Engine {
 	ctx := smt.NewCtx()
 	trueTerm, falseTerm = ctx.True(), ctx.False()
 	return &Engine{Cfg: cfg, C: ctx, Contracts: map[string]*FnContract{}, ByFn: map[*ssa.Function]*FnContract{},
-		Uninterp: map[*ssa.Function]bool{}, Opaque: map[*ssa.Function]bool{}, DefEqs: map[*smt.Term][2]*smt.Term{}, skMemo: map[*smt.Term]*smt.Term{}, NoEffect: map[string]string{}, GhostAcc: map[*ssa.Function]bool{}, Overlay: map[string][]byte{}, GenSrc: map[string]string{},
+		Uninterp: map[*ssa.Function]bool{}, Opaque: map[*ssa.Function]bool{}, DefEqs: map[*smt.Term][2]*smt.Term{}, skMemo: map[*smt.Term]*smt.Term{}, hqMemo: map[*smt.Term]bool{}, defImpl: map[*smt.Term]bool{}, NoEffect: map[string]string{}, GhostAcc: map[*ssa.Function]bool{}, Overlay: map[string][]byte{}, GenSrc: map[string]string{},
 		strLits: map[string]*smt.Term{}, globalsSeen: map[string]*smt.Term{}, Stats: map[string]int{}, headStates: map[string]*State{}, UsedAssumed: map[string]bool{}, foreignGlobals: map[string]bool{}, vaMemo: map[*smt.Term][]*smt.Term{}, kindIdx: map[string]int{}}
 }
 
